@@ -422,6 +422,11 @@ def traversal_idiom(index, ctx):
                 ctx.undecided("R4", f"{F.short}: `{norm_text(a)}`", "successors are pushed on the worklist in a form that is not recognised", F.loc(a))
         if isinstance(a, ast.Assign) and isinstance(a.targets[0], ast.Name) and a.targets[0].id == cursor and isinstance(a.value, ast.Name) and a.value.id in succ_vars:
             adoptions.append((n, a.value.id, succ_vars[a.value.id] | conds_about(guards, a.value.id), "made the current node", False, guards))
+    # the worklist holds every node that was scheduled until it is popped: a bounded deque silently drops nodes from the other end when it is full
+    for c_ in ast.walk(fn):
+        if isinstance(c_, ast.Call) and norm_text(c_.func).split(".")[-1] == "deque" and (any(k.arg == "maxlen" and not (isinstance(k.value, ast.Constant) and k.value.value is None) for k in c_.keywords) or len(c_.args) >= 2):
+            ctx.violated("R4", f"{F.short}: worklist `{norm_text(c_)[:60]}` is bounded", f"`{norm_text(c_)[:80]}`: appending to a full bounded deque discards an element from the opposite end — pending "
+                         "nodes are dropped once the frontier exceeds the bound, and the leaves behind them are never discovered", F.loc(c_))
     ctx.floor("successor adoption sites", len(adoptions), 1)
     visited_sets = set()
     excl_sets = set()  # sets the adoption guard also excludes, without marking into them (the excluded nodes kept apart from the visited ones)
